@@ -101,6 +101,20 @@ PROPS = {
         assumptions=['in-memory StreamLayer (net.Pipe based) instead of TCP: tcp_transport.go is covered only through NewNetworkTransport', 'msgpack codec is not modelled: its prefix round-trip law is a hypothesis of the framing theorem, tested by part A'],
         timeout={'quick': 900, 'thorough': 7200},
     ),
+    'C17': dict(
+        props_file='Props/C17.v',
+        components=['c17'],
+        comp_names={17: 'API cells: one real server per cell (role x API x instant relative to Shutdown/step-down), caller wait under a watchdog'},
+        rule='(T) Model/LoopTable.v is regenerated from the Go source (go/ast: select cases of runFollower/runCandidate/leaderLoop/runSnapshots/runFSM with the use made of the received future and the respond arguments, '
+             'runLeader deferred flush, every API constructor: queue, shutdownCh case, ShutdownCh assignment, other escapes; channel capacities; deferError.Error select) and C17_table_ok is re-proved on it by computation. '
+             '(cells) real servers (raft.NewRaft, all goroutines): API in {Apply, Apply with enqueue timeout, Barrier, VerifyLeader, AddVoter, BootstrapCluster, Snapshot, Restore, LeadershipTransfer, GetConfiguration} x '
+             'role in {follower, candidate, leader, leader that cannot commit (futures parked in flight), leader with blocked FSM (futures queued for the FSM)} x buffered/unbuffered applyCh x '
+             'instant in {running, racing Shutdown with 0-40 us skew, after completed Shutdown, leader deposed after the call, Shutdown after the call}; racing cells run in child processes (a panic is an observation). '
+             'Compared: the error class is one the model allows for the cell (from the table for follower/candidate). Monitor: wait not returned within 1.5 s, process panic, anything but ErrRaftShutdown after a completed Shutdown. Non-trivial = call did not simply succeed',
+        assumptions=['resolution "within bounded time while running" is measured under a 1.5 s watchdog on an otherwise idle server; fairness of the Go scheduler is not modelled',
+                     'GetConfiguration is answered inline from local state and returns nil after Shutdown as well: not counted as a violation (it never blocks)'],
+        timeout={'quick': 900, 'thorough': 7200},
+    ),
     'C13': dict(
         props_file='Props/C13.v',
         components=['c13'],
